@@ -18,7 +18,9 @@ RULE = ('for each of arvi/evi/gci/nbr/nbr2/ndvi/ndmi/savi/sipi/ebbi and true_col
         'NaN/+-inf/-0.0/tiny/huge cells; parameter grids for soil_factor (incl. +-1, 0, outside [-1,1], NaN), c1, c2, '
         'gain (incl. 0, negative), nodata/c/th; positional and keyword calls; the same stream Dask-backed (every dtype, single / '
         '1-cell / uneven chunks, mixed chunkings per band, computed and compared exactly like the NumPy result); a repeated call '
-        'and a swapped-band call on the SAME band objects (in-place writes show there); band-swap and power-of-two-scaling '
+        'and a swapped-band call on the SAME band objects (in-place writes show there); groups of 2-3 lazy Dask results of one '
+        'index (same band objects with other parameters / band order, and other bands) evaluated in ONE dask.compute, each '
+        'compared with the oracle, its NumPy-backed result and the model; band-swap and power-of-two-scaling '
         'metamorphic pairs on the implementation. A case is non-trivial when it has >= 1 cell with all bands finite; '
         'distinct by JSON encoding.')
 TRUSTED = [
@@ -652,6 +654,118 @@ def repeated_call(ctx, ms, case, arrs, out):
             return
 
 
+# ---------------------------------------------------------------- several lazy results computed in ONE graph
+def gen_group(rng, fn):
+    """2-3 variants of one index on Dask bands: same band objects with other parameters / other band order, and other bands"""
+    nb = len(ARGS[fn])
+    dts, kind, bands = gen_bands(rng, nb)
+    while not (len(bands[0]) and len(bands[0][0])):
+        dts, kind, bands = gen_bands(rng, nb)
+    rows_, cols_ = len(bands[0]), len(bands[0][0])
+    styles = ['single', 'cells', 'uneven']
+    ch = gen_chunks(rng, rows_, cols_, rng.choice(styles))
+    chunks = [ch for _ in range(nb)] if rng.random() < 0.6 else [gen_chunks(rng, rows_, cols_, rng.choice(styles)) for _ in range(nb)]
+
+    def valid_params():
+        if fn == 'savi':
+            return dict(soil_factor=rng.choice([1.0, 0.5, 0.0, -0.5, 0.25, 1]))
+        if fn == 'evi':
+            return dict(c1=rng.choice([6.0, 2.4, 1.0, 0.0]), c2=rng.choice([7.5, 0.0, 1, 0.5]),
+                        soil_factor=rng.choice([1.0, 0.5, 0.0, -0.5]), gain=rng.choice([2.5, 1.0, 2, 0.5]))
+        return {}
+    p0 = valid_params()
+    base = dict(fn=fn, dtypes=dts, kind=kind, bands=bands, params=p0, chunks=chunks, style='kw')
+    group = [base]
+    # same band OBJECTS: other parameters (savi / evi) or another band order
+    if fn in ('savi', 'evi'):
+        p1 = valid_params()
+        for _ in range(5):
+            if p1 != p0:
+                break
+            p1 = valid_params()
+        group.append(dict(base, params=p1, share=list(range(nb))))
+    else:
+        perm = list(range(nb))
+        perm = perm[1:] + perm[:1]
+        group.append(dict(base, bands=[bands[k] for k in perm], dtypes=[dts[k] for k in perm],
+                          chunks=[chunks[k] for k in perm], share=perm))
+    # other bands, same shape
+    if rng.random() < 0.8:
+        b2 = [[[gen_value(rng, dts[k], kind if (dts[k].startswith('float') or kind in KINDS_INT) else 'small')
+                for _ in range(cols_)] for _ in range(rows_)] for k in range(nb)]
+        group.append(dict(base, bands=b2, params=p0 if rng.random() < 0.5 else valid_params()))
+    return group
+
+
+def run_group(ctx, ms, group, pending):
+    import dask
+    fn = group[0]['fn']
+    lazies, arrs0 = [], None
+    for i, case in enumerate(group):
+        case['exact'] = is_exact_class(case['bands'], case['params'])
+        if i == 0:
+            arrs = arrs0 = build_arrays(case)
+        elif case.get('share') is not None:
+            arrs = [arrs0[k] for k in case['share']]
+        else:
+            arrs = build_arrays(case)
+        try:
+            lazies.append(call_index(ms, case, arrs))
+        except Exception as e:
+            ctx.violation('oracle', '%s raised %s: %s' % (fn, type(e).__name__, e), dict(group=group, fn=fn, failing_variant=i))
+            return
+    try:
+        with np.errstate(all='ignore'):
+            outs = dask.compute(*[r.data for r in lazies])
+    except Exception as e:
+        ctx.violation('oracle', '%s: dask.compute of %d lazy results raised %s: %s' % (fn, len(lazies), type(e).__name__, e),
+                      dict(group=group, fn=fn))
+        return
+    for i, (case, o) in enumerate(zip(group, outs)):
+        out = [[float(v) for v in row] for row in np.asarray(o).tolist()]
+        n0 = len(ctx.violations)
+        oracle_index(ctx, case, out)
+        try:
+            alone = out_lists(call_index(ms, dict(case, chunks=None)))
+            for r1, r2 in zip(out, alone):
+                for a, b in zip(r1, r2):
+                    if not same_bits(a, b):
+                        ctx.violation('oracle', '%s: gave %r where the NumPy-backed call gives %r' % (fn, a, b), dict(case, got=a, numpy=b))
+                        raise StopIteration
+        except StopIteration:
+            pass
+        for v in ctx.violations[n0:]:
+            v['what'] = '[variant %d of %d lazy %s results computed in ONE dask.compute] %s' % (i + 1, len(group), fn, v['what'])
+            v['replay'] = dict(group=group, fn=fn, failing_variant=i)
+        pending.append((model_line(case), [v for r in out for v in r], dict(case, together=True), fn + '/together'))
+
+
+def run_true_color_group(ctx, ms, rng):
+    """two lazy true_color images of the same Dask bands with different nodata / c / th in one dask.compute"""
+    import dask
+    case = gen_true_color(rng)
+    rows_, cols_ = len(case['bands'][0]), len(case['bands'][0][0])
+    ch = gen_chunks(rng, rows_, cols_, rng.choice(['single', 'cells', 'uneven']))
+    case['chunks'] = [ch, ch, ch]
+    p2 = dict(case['params'], c=rng.choice([5.0, 20.0, 1.0]), th=rng.choice([0.5, 0.25, 0.0]),
+              nodata=case['params']['nodata'] if case['dtypes'][0] == 'float32' else rng.choice([0, 3, 7]))
+    group = [case, dict(case, params=p2)]
+    arrs = build_arrays(case)
+    try:
+        with np.errstate(all='ignore'):
+            lazies = [ms.true_color(*arrs, **c['params']) for c in group]
+            outs = dask.compute(*[r.data for r in lazies])
+            for i, (c, o) in enumerate(zip(group, outs)):
+                alone = np.asarray(ms.true_color(*build_arrays(dict(c, chunks=None)), **c['params']).data)
+                if not np.array_equal(np.asarray(o), alone):
+                    ctx.violation('oracle', '[variant %d of 2 lazy true_color results computed in ONE dask.compute] differs from the '
+                                  'NumPy-backed call (params %r)' % (i + 1, c['params']), dict(group=group, fn='true_color', failing_variant=i))
+                    return
+    except Exception as e:
+        ctx.violation('oracle', 'true_color (two lazy results in one dask.compute) raised %s: %s' % (type(e).__name__, e),
+                      dict(group=group, fn='true_color'))
+
+
 def nontrivial(case):
     b = case['bands']
     for y in range(len(b[0])):
@@ -860,6 +974,16 @@ def run(ctx, model=True):
         if rng.random() < (0.5 if ctx.quick() else 0.7):
             metamorphic(ctx, ms, case, out)
     ntc = 150 if ctx.quick() else 5000
+    # several lazy results of one index evaluated in ONE graph (a shared output key shows only there)
+    for fn in ALL_FN:
+        for _ in range(2 if ctx.quick() else 120):
+            group = gen_group(rng, fn)
+            ctx.case(dict(group=group, fn=fn), nontrivial=True)
+            ctx.count('dask-together:%s/%d' % (fn, len(group)))
+            run_group(ctx, ms, group, pending)
+    for _ in range(3 if ctx.quick() else 150):
+        ctx.count('dask-together:true_color/2')
+        run_true_color_group(ctx, ms, rng)
     ndask_tc = 16 if ctx.quick() else 600
     for i in range(ntc + ndask_tc):
         case = gen_true_color(rng)
@@ -899,6 +1023,22 @@ def _fix(v):
 
 def replay_case(ctx, case):
     ms = _impl()
+    if case.get('group') is not None:
+        group = []
+        for c in case['group']:
+            c = dict(c)
+            c['bands'] = _fix(c['bands'])
+            c['params'] = {k: _fix(v) for k, v in c.get('params', {}).items()}
+            group.append(c)
+        ctx.case(case)
+        pending = []
+        if case.get('fn') == 'true_color':
+            import random
+            run_true_color_group(ctx, ms, random.Random(ctx.seed))
+        else:
+            run_group(ctx, ms, group, pending)
+        compare_model(ctx, pending)
+        return
     case = dict(case)
     case['bands'] = _fix(case['bands'])
     case['params'] = {k: _fix(v) for k, v in case.get('params', {}).items()}
